@@ -89,6 +89,15 @@ def scale_ops(ops, k, keep_volume=True):
     return out
 
 
+def sprinkle_serde(ops, r, prob=1.0, slot=0):
+    """insert a serialize/deserialize round-trip of `slot` at a random position after the window has had time to fill: by the
+    transparency theorem (C06_serde_transparent) this changes nothing, unless some state is not carried by the serialized form"""
+    if r.random() >= prob or len(ops) < 6:
+        return ops
+    i = r.randrange(len(ops) // 2, len(ops))
+    return ops[:i] + [("s", slot)] + ops[i:]
+
+
 def with_scaled(cases, r, frac=0.35, scales=SCALES):
     """append power-of-two rescaled copies of a sample of the cases (tiny and huge price units)"""
     extra = []
@@ -96,4 +105,14 @@ def with_scaled(cases, r, frac=0.35, scales=SCALES):
         if r.random() < frac:
             k = r.choice(scales)
             extra.append(Case("%s_x2^%d" % (c.cid, k), scale_ops(c.ops, k), dump=c.dump, meta=dict(c.meta, scale=k)))
+    # absolute thresholds hide in the tiniest unit: the two longest cases of every indicator are always copied there, whatever the seed
+    by_ind = {}
+    for c in cases:
+        ind = c.meta.get("ind") if isinstance(c.meta, dict) else None
+        if ind is not None and len(c.ops) <= 400:
+            by_ind.setdefault(ind, []).append(c)
+    k = min(scales)
+    for ind, cs in by_ind.items():
+        for c in sorted(cs, key=lambda c_: -len(c_.ops))[:2]:
+            extra.append(Case("%s_x2^%d_t" % (c.cid, k), scale_ops(c.ops, k), dump=c.dump, meta=dict(c.meta, scale=k)))
     return cases + extra
